@@ -135,6 +135,7 @@ class World:
         for h in self.attr_hooks:
             r = h(it, ('getattr', name), (obj,))
             if r is not NotImplemented: return r
+        if obj is None: raise PyExc(AttributeError, (f"'NoneType' object has no attribute {name!r}",))
         if isinstance(obj, types.ModuleType) or isinstance(obj, type) or isinstance(obj, enum.Enum):
             try: return getattr(obj, name)
             except AttributeError as e: raise PyExc(AttributeError, e.args)
